@@ -42,6 +42,7 @@ import GeoProofs.Lemmas.RELM3Full
 import GeoProofs.Lemmas.RELM3ArealFull
 import GeoProofs.Lemmas.RELM3MPoly
 import GeoProofs.Lemmas.RELM3PointMP
+import GeoProofs.Lemmas.RELM3LineLine
 import Mathlib.Tactic.NormNum
 
 namespace Geo.Proofs.C01
@@ -2158,6 +2159,58 @@ theorem relateImpl_point_eq_spec_noCollection_partial (p : Pt) (b : Geom) (hd : 
   | multiPolygon ps => exact relateImpl_point_eq_spec_extendedType_partial p _ hd rfl
   | rect mn mx => exact relateImpl_point_eq_spec_extendedType_partial p _ hd rfl
   | triangle a c e => exact relateImpl_point_eq_spec_extendedType_partial p _ hd rfl
+
+/-! ### Line × Line and linear × linear: the cells of the specification that involve a boundary -/
+
+/-- [T] **linear × linear (any two lists of curves — Line, LineString, MultiLineString operands): every cell with a
+boundary in it — IB, BI, BB, BE, EB — is `0` exactly when some point has that pair of locations, `F` otherwise**
+(`cell_complete` for these five cells: a boundary point of a linear operand is an end point of a curve, hence a vertex
+of the arrangement; an elementary midpoint is not a vertex; face samples are outside of linear operands). -/
+theorem relateSpec_linear_boundary_cells (ls ms : List (List Pt)) (X Y : Pos) (hXY : X = .onBoundary ∨ Y = .onBoundary) :
+    ((relateSpec (.multiLineString ls) (.multiLineString ms)).get X Y = .zero ↔
+      ∃ v, locate (.multiLineString ls) v = X ∧ locate (.multiLineString ms) v = Y) ∧
+    ((relateSpec (.multiLineString ls) (.multiLineString ms)).get X Y = .empty ↔
+      ¬ ∃ v, locate (.multiLineString ls) v = X ∧ locate (.multiLineString ms) v = Y) :=
+  linear_cell_boundary_zero ls ms X Y hXY
+
+/-- two line strings meeting at an end point of both: BB = 0 -/
+example : (relateSpec (.multiLineString [[⟨0, 0⟩, ⟨2, 0⟩]]) (.multiLineString [[⟨2, 0⟩, ⟨2, 2⟩]])).get .onBoundary .onBoundary = .zero :=
+  (relateSpec_linear_boundary_cells _ _ _ _ (Or.inl rfl)).1.2 ⟨⟨2, 0⟩, by decide +kernel, by decide +kernel⟩
+
+/-- [T] **Line × Line, the cells BB, IB, BI, BE, EB** (non-degenerate segments; with II — `relateSpec_line_line_ii`,
+`relateSpec_line_line_ii_one` — and `EE = 2` seven of the nine cells; IE / EI need "a segment not covered by the other
+has an elementary sub-segment off it"): BB = 0 iff the segments share an end point; IB = 0 iff an end point of the
+second lies in the open first segment (BI: transposed); BE = 0 iff an end point of the first is off the second (EB:
+transposed); `F` otherwise. -/
+theorem relateSpec_line_line_boundary_cells (a b c d : Pt) (hab : a ≠ b) (hcd : c ≠ d) :
+    (((relateSpec (.line a b) (.line c d)).bb = .zero ↔ (a = c ∨ a = d ∨ b = c ∨ b = d)) ∧
+      ((relateSpec (.line a b) (.line c d)).bb = .empty ↔ ¬ (a = c ∨ a = d ∨ b = c ∨ b = d))) ∧
+    (((relateSpec (.line a b) (.line c d)).ib = .zero ↔ (Spec.SegInt c a b ∨ Spec.SegInt d a b)) ∧
+      ((relateSpec (.line a b) (.line c d)).ib = .empty ↔ ¬ (Spec.SegInt c a b ∨ Spec.SegInt d a b))) ∧
+    (((relateSpec (.line a b) (.line c d)).bi = .zero ↔ (Spec.SegInt a c d ∨ Spec.SegInt b c d)) ∧
+      ((relateSpec (.line a b) (.line c d)).bi = .empty ↔ ¬ (Spec.SegInt a c d ∨ Spec.SegInt b c d))) ∧
+    (((relateSpec (.line a b) (.line c d)).be = .zero ↔
+        (locate (.line c d) a = .outside ∨ locate (.line c d) b = .outside)) ∧
+      ((relateSpec (.line a b) (.line c d)).be = .empty ↔
+        ¬ (locate (.line c d) a = .outside ∨ locate (.line c d) b = .outside))) ∧
+    (((relateSpec (.line a b) (.line c d)).eb = .zero ↔
+        (locate (.line a b) c = .outside ∨ locate (.line a b) d = .outside)) ∧
+      ((relateSpec (.line a b) (.line c d)).eb = .empty ↔
+        ¬ (locate (.line a b) c = .outside ∨ locate (.line a b) d = .outside))) := by
+  have ht : relateSpec (.line a b) (.line c d) = (relateSpec (.line c d) (.line a b)).transpose :=
+    relateSpec_transpose (.line c d) (.line a b)
+  refine ⟨line_line_bb a b c d hab hcd, line_line_ib a b c d hab hcd, ?_, line_line_be a b c d hab, ?_⟩
+  · have h1 : ∀ m : IM, m.transpose.bi = m.ib := fun _ => rfl
+    rw [ht, h1]
+    exact line_line_ib c d a b hcd hab
+  · have h1 : ∀ m : IM, m.transpose.eb = m.be := fun _ => rfl
+    rw [ht, h1]
+    exact line_line_be c d a b hcd
+
+/-- a T junction: the end point (1, 0) of the second segment lies in the open first segment -/
+example : (relateSpec (.line ⟨0, 0⟩ ⟨2, 0⟩) (.line ⟨1, 0⟩ ⟨1, 2⟩)).ib = .zero :=
+  (relateSpec_line_line_boundary_cells _ _ _ _ (by simp) (by simp)).2.1.1.2
+    (Or.inl ⟨⟨1/2, by norm_num, by norm_num, by norm_num, by norm_num⟩, by simp, by simp⟩)
 
 end Impl3
 
